@@ -85,6 +85,24 @@ def gen_model(rnd, max_classes=4, toggles=True):
             toggle = [('if', ('has', 'v_mark'), [('remove', 'v_mark')], [('set', 'v_mark', ('sv', 1))])]
             s['sweeten'] = toggle
             s['savorize'] = toggle
+    # a base class's remove_attributes_with_default_values(cls) runs for objects of its subclasses too, with the BASE's
+    # defaults: it is an inverse of loading only if the subclass declares the same-named parameters with the same default
+    for s in specs:
+        if s['kind'] != 'obj':
+            continue
+        for a in _ancestors(specs, s['name']):
+            sa = loadcase.spec_of(specs, a)
+            if not sa or sa.get('sweeten') != [('op', ('rmdefaults_cls',))] or not sa.get('registered', True):
+                continue
+            for pa in sa['params']:
+                if 'default' not in pa:
+                    continue
+                for ps in s['params']:
+                    if ps['name'] == pa['name']:
+                        ps['default'] = copy.deepcopy(pa['default'])
+                        ps['required'] = False
+                        ps['type'] = pa['type']
+        s['params'].sort(key=lambda p: not p['required'])
     if toggles == 'commuting':
         # sweeteners and savorizers both run ancestors-first, so a hierarchy's hooks are mutual inverses only when they commute:
         # a model with a toggling class gets no key-renaming hooks at all
